@@ -21,7 +21,7 @@ DEP_CTORS = gen.ctors(exclude_tags=NO_HANDLER)
 N3 = gen.ctors(names=("Call1", "CallKw11", "Subscript", "SubscriptT", "Lookup", "CSE", "CSEp",
                       "Sum2", "Power", "If", "Slice2", "tuple2"))
 FLOP_TAGS = ("Call", "CallWithKwargs", "Subscript", "Lookup", "Sum", "Product", "Quotient",
-             "FloorDiv", "Power", "LeftShift", "RightShift", "BitwiseNot", "BitwiseOr",
+             "FloorDiv", "Remainder", "Power", "LeftShift", "RightShift", "BitwiseNot", "BitwiseOr",
              "BitwiseXor", "BitwiseAnd", "Comparison", "LogicalNot", "LogicalOr", "LogicalAnd",
              "If", "Min", "Max", "CommonSubexpression", "tuple", "list", "array")
 COUNT_EXCLUDED = ("tuple", "list", "array")
@@ -171,6 +171,75 @@ def ref_flops(s, cse_aware):
 # }}}
 
 
+def wide_failure(n):
+    """(v0 + ... + v_n-1) / (v0 * ... * v_n-1) + arr[v0 + ... + v_n-1]: more than n distinct
+    nodes, every variable and the sum occurring again later.  Exact results are known in closed
+    form."""
+    import pymbolic.primitives as p
+    from pymbolic.mapper.dependency import CachedDependencyMapper, DependencyMapper
+    from pymbolic.mapper.flop_counter import CSEAwareFlopCounter, FlopCounter
+    from pymbolic.mapper.analysis import get_num_nodes
+    vs = tuple(p.Variable(f"v{i}") for i in range(n))
+    expr = p.Sum((p.Quotient(p.Sum(vs), p.Product(vs)), p.Subscript(p.Variable("arr"), p.Sum(vs))))
+    got = get_num_nodes(expr)
+    want = n + 1 + 1 + 1 + 1 + 1 + 1      # variables, sum, product, quotient, arr, subscript, root
+    if got != want:
+        return ("node-count", f"{n} distinct operands: {got} nodes counted, {want} distinct "
+                "subexpressions")
+    flops = (n - 1) + (n - 1) + 1 + (n - 1) + 1
+    for cls in (FlopCounter, CSEAwareFlopCounter):
+        g = cls()(expr)
+        if g != flops:
+            return ("flops", f"{cls.__name__}: {g} flops, expected {flops}")
+    for cls in (DependencyMapper, CachedDependencyMapper):
+        d = cls(composite_leaves=False)(expr)
+        if d != {*vs, p.Variable("arr")}:
+            return ("dependencies", f"{cls.__name__}: {len(d)} dependencies, expected {n + 1}")
+    return None
+
+
+def regconst_failure(phase, what):
+    """Fraction constants in the tree; Fraction registered at run time (after the mapper modules
+    were imported): while registered every analysis gives its exact result, otherwise the
+    constant is refused."""
+    from fractions import Fraction
+
+    import pymbolic.primitives as p
+    from pymbolic.mapper.dependency import CachedDependencyMapper, DependencyMapper
+    from pymbolic.mapper.flop_counter import CSEAwareFlopCounter, FlopCounter
+    from pymbolic.mapper.analysis import get_num_nodes
+
+    from vf.regconst import constant_class_history
+    x, y = p.Variable("x"), p.Variable("y")
+    sub = p.Subscript(p.Variable("a"), y)
+    expr = p.Sum((p.Product((Fraction(1, 2), x)), sub, Fraction(3, 4)))
+    with constant_class_history(phase) as is_const:
+        try:
+            if what.startswith("dep"):
+                cls = CachedDependencyMapper if what == "dep-cached" else DependencyMapper
+                want = {x, sub}
+                got = cls()(expr)
+            elif what.startswith("flops"):
+                cls = CSEAwareFlopCounter if what == "flops-cse" else FlopCounter
+                want = 3
+                got = cls()(expr)
+            else:
+                want = 8
+                got = get_num_nodes(expr)
+            res = ("ok", got)
+        except RecursionError:
+            raise
+        except Exception as e:  # noqa: BLE001
+            res = ("raised", type(e).__name__)
+    if is_const and res != ("ok", want):
+        return ("registered-constant", f"Fraction is registered: {what} gives {res}, expected "
+                f"{want}")
+    if not is_const and res[0] == "ok":
+        return ("unregistered-constant-accepted", f"Fraction is not registered ({phase}) but "
+                f"{what} returned {res[1]!r}")
+    return None
+
+
 def analyse(spec, r=None):
     """-> (kind, detail) or (None, '')"""
     from pymbolic.mapper.dependency import CachedDependencyMapper, DependencyMapper
@@ -295,6 +364,9 @@ class C09(Check):
             "prefix), sum, power, conditional, slice, tuple}; plus sharing families (the same CSE "
             "twice, equal-but-not-identical subtrees); each x all 72 flag vectors x cached/uncached "
             "dependency mapper, the node counter and both flop counters; plus all length-3 "
+            "one tree with 1100 (thorough 300 / 1100 / 2100) distinct operands that all occur again "
+            "(closed-form node count, flops, dependencies); Fraction constants before / while / after "
+            "Fraction is registered as a constant class at run time; "
             "histories of 10 expressions (the caller adds an element to every set a plain analysis "
             "returns; the include_calls option is an equal, non-interned string) on ONE analysis instance (plain and cached dependency "
             "mapper under 4 flag settings, flop counter), each result compared with a fresh "
@@ -302,8 +374,8 @@ class C09(Check):
             "contains a subscript, lookup, call or CSE, or a repeated subtree; distinct = distinct "
             "trees.")
     assumptions = [
-        "Remainder is left out of the flop alphabet (the statement does not say whether % is a "
-        "division); tuple/list/array containers are left out of the node-count alphabet; trees "
+        "a Remainder node is none of 'additions, multiplications, divisions and powers': it costs "
+        "nothing itself, its operands are counted; tuple/list/array containers are left out of the node-count alphabet; trees "
         "with == but differently typed twin subtrees are left out of the node count",
         "node types without a handler (Substitution, Derivative) must be reported by raising",
     ]
@@ -319,6 +391,9 @@ class C09(Check):
             ("typed-twins", lambda: (("t", s) for s in gen.twin_trees(
                 gen.TYPED_TWINS, V("x"), V("y")))),
             ("sharing", self.gen_sharing),
+            ("wide", lambda: (("wide", n) for n in ((1100,) if tier == "quick"
+                                                    else (300, 1100, 2100)))),
+            ("registered-constant-class", self.gen_regconst),
             ("instance-histories", self.gen_histories),
             ("nest3", lambda: (("t", s) for _, s in gen.nest3(N3, N3, N3))),
         ]
@@ -348,6 +423,12 @@ class C09(Check):
                 Sub(V("arr"), Sum(x, C(1))), CSE(Sum(x, y), "p"),
                 # analyses whose whole result is the set made for one leaf
                 C(2), CSE(C(1))]
+
+    def gen_regconst(self):
+        from vf.regconst import PHASES
+        for phase in PHASES:
+            for what in ("dep", "dep-cached", "flops", "flops-cse", "count"):
+                yield ("regconst", phase, what)
 
     def gen_histories(self):
         n = len(self.hist_pool())
@@ -397,6 +478,20 @@ class C09(Check):
 
     def check_item(self, family, item, tier):
         r = Res()
+        if item[0] == "wide":
+            r.evals += 1
+            r.keys.append(item)
+            f = wide_failure(item[1])
+            if f:
+                r.fail(f[0], f"{f[0]}|n={item[1]}", f[1])
+            return r
+        if item[0] == "regconst":
+            r.evals += 1
+            r.keys.append(item)
+            f = regconst_failure(item[1], item[2])
+            if f:
+                r.fail(f[0], f"{f[0]}|{item[1]}|{item[2]}", f[1])
+            return r
         if item[0] == "hist":
             hist = tuple(item[2])
             f = self.check_history(r, item[1], hist)
